@@ -782,7 +782,7 @@ let () =
        | "C01" ->
          let fam = tagged "castling_family" (castling_family r (600 / !nshards)) @ tagged "ep_family" (ep_family r (1200 / !nshards))
                    @ tagged "pin_family" (pin_family r (600 / !nshards)) @ tagged "promo_family" (promo_family r (300 / !nshards)) in
-         run_positions s r corpus { none with p_moves = true; p_into = true; p_islegal = true; depth = 10; undo_pct = 5; null_pct = 2 } 3000 150000 ~extra:fam ()
+         run_positions s r corpus { none with p_moves = true; p_into = true; p_islegal = true; depth = 10; undo_pct = 5; null_pct = 2 } 3000 60000 ~extra:fam ()
        | "C02" ->
          run_scripts s r { none with p_state = true } [ "fullmove_zero" ];
          run_positions s r corpus { none with p_state = true; p_maketext = true; depth = 40; undo_pct = 4; null_pct = 4 } 3000 100000
@@ -791,9 +791,9 @@ let () =
          run_scripts s r { none with p_state = true; p_hist = true } [ "very_long_history"; "fullmove_zero"; "move_from_own_history" ];
          run_positions s r corpus { none with p_state = true; p_hist = true; p_moves = true; depth = 120; undo_pct = 30; null_pct = 6 } 800 20000 ()
        | "C05" -> run_positions s r corpus { none with p_state = true; depth = 60; undo_pct = 15; null_pct = 5 } 3000 100000 ()
-       | "C08" -> run_positions s r corpus { none with p_attacks = true; p_attackers = true; depth = 12; undo_pct = 5; null_pct = 3 } 2500 100000
+       | "C08" -> run_positions s r corpus { none with p_attacks = true; p_attackers = true; depth = 12; undo_pct = 5; null_pct = 3 } 2500 50000
                     ~extra:(tagged "pin_family" (pin_family r (400 / !nshards))) ()
-       | "C13" -> run_positions s r corpus { none with p_attacks = true; depth = 12; undo_pct = 5; null_pct = 5 } 3000 150000
+       | "C13" -> run_positions s r corpus { none with p_attacks = true; depth = 12; undo_pct = 5; null_pct = 5 } 3000 70000
                     ~extra:(tagged "pin_family" (pin_family r (2000 / !nshards))) ()
        | "C18" ->
          let sk = List.filter_map (fun _ -> match pawn_skeleton r with Some p -> Some (true, p, "pawn_skeleton") | None -> None) (List.init (20000 / !nshards) (fun i -> i)) in
@@ -801,8 +801,8 @@ let () =
          run_positions s r corpus { none with p_attacks = true; depth = 12 } 2000 100000 ()
        | "C10" ->
          run_scripts s r { none with p_game = true; p_state = true } [ "long_shuttle"; "perpetual_white"; "perpetual_black"; "stale_history" ];
-         run_positions s r corpus { none with p_game = true; depth = 40; undo_pct = 8; null_pct = 3 } 2500 100000 ()
-       | "C11" -> run_positions s r corpus { none with p_text = true; p_parseall = 15; depth = 12 } 2500 80000
+         run_positions s r corpus { none with p_game = true; depth = 40; undo_pct = 8; null_pct = 3 } 2500 40000 ()
+       | "C11" -> run_positions s r corpus { none with p_text = true; p_parseall = 15; depth = 12 } 2500 16000
                     ~extra:(tagged "castling_family" (castling_family r (300 / !nshards))) ()
        | "C12" ->
          (* equal hash, different castling rook: queried back to back on one object and in one process (a cache keyed by the
@@ -858,7 +858,7 @@ let () =
          run_scripts s r { none with p_state = true; p_moves = true; p_game = true; p_hist = true }
            [ "move_from_own_history"; "very_long_history"; "long_shuttle"; "perpetual_white"; "stale_history"; "fullmove_zero" ];
          run_positions s r corpus { none with p_state = true; p_moves = true; p_attacks = true; p_game = true; p_text = true; p_fen = true; p_hist = true;
-                                                       depth = 40; undo_pct = 12; null_pct = 4 } 1500 60000
+                                                       depth = 40; undo_pct = 12; null_pct = 4 } 1500 12000
                     ~extra:(tagged "castling_family" (castling_family r (300 / !nshards)) @ tagged "ep_family" (ep_family r (600 / !nshards))
                             @ tagged "promo_family" (promo_family r (200 / !nshards))) ()
        | "C09" ->
